@@ -68,10 +68,12 @@ def _safe_verify(u, rlimit, seed):
         return ("uniterror", f"internal error: {e!r}", None)
 
 
-def _unit_json(unit, repo=None, seed=None, rlimit=None, timeout=1500):
+def _unit_json(unit, repo=None, seed=None, rlimit=None, timeout=1500, vacuity=False):
     """run `check unit <unit> --json` in a subprocess (optionally against another copy of the sources)"""
     import subprocess
     env = dict(os.environ)
+    if vacuity:
+        env["HQ_VACUITY"] = "1"
     if repo:
         env["HQ_REPO"] = repo
     cmd = [os.path.join(VERIF, "check"), "unit", unit, "--json"]
@@ -107,6 +109,16 @@ def run_thorough(prop, pc, units, seed):
             out["stability"].append({"unit": u, "seed": sd, "rlimit": rl, "status": r["status"], "failures": len(r["failures"]),
                                      "failing": [f["fn"] + ": " + f["clause"][:80] for f in r["failures"]][:5]})
     out["unstable_units"] = sorted({x["unit"] for x in out["stability"] if x["status"] != "ok" or x["failures"]})
+    # (c) vacuity: every function with a `requires` gets a twin with the same precondition and body `assert(false)`; the twin must fail
+    out["vacuity"] = {}
+    out["vacuous"] = []
+    with concurrent.futures.ThreadPoolExecutor(max_workers=6) as ex:
+        for u, r in zip(units, ex.map(lambda u: _unit_json(u, vacuity=True), units)):
+            vac = [f for f in r.get("fns", []) if f.endswith("__vac")]
+            failed = {f["fn"] for f in r["failures"]}
+            bad = [v for v in vac if v not in failed] if r["status"] == "ok" else []
+            out["vacuity"][u] = {"twins": len(vac), "failed_as_expected": len([v for v in vac if v in failed]), "status": r["status"]}
+            out["vacuous"] += [f"{u}::{v}" for v in bad]
     # mutants
     muts = []
     mfile = os.path.join(VERIF, "mutants.json")
@@ -162,6 +174,7 @@ def run_thorough(prop, pc, units, seed):
     out["weak_contracts"] = [r["id"] for r in out["mutants"] if r["result"] == "SURVIVED"]
     out["mutants_killed"] = sum(1 for r in out["mutants"] if r["result"] == "killed")
     out["mutants_total"] = len(out["mutants"])
+    print(f"{prop}: thorough: vacuity twins={sum(v['twins'] for v in out['vacuity'].values())} vacuous={out['vacuous']}")
     print(f"{prop}: thorough: stability runs={len(out['stability'])} unstable_units={out['unstable_units']} "
           f"mutants killed={out['mutants_killed']}/{out['mutants_total']} survived={out['weak_contracts']} "
           f"undecided={[r['id'] for r in out['mutants'] if r['result'] == 'undecided']}")
@@ -307,6 +320,8 @@ def main(argv):
     thorough = None
     if args.tier == "thorough":
         thorough = run_thorough(prop, pc, units, seed)
+        for v in thorough.get("vacuous", []):
+            undecided.append(f"VACUOUS precondition (its vacuity twin verified): {v}")
 
     wall = time.time() - t0
     os.makedirs(os.path.join(VERIF, "evidence"), exist_ok=True)
